@@ -15,6 +15,7 @@ def main():
     for i in ids:
         d = f'{ROOT}/seeded/{i}'
         meta = json.load(open(f'{d}/meta.json'))
+        if meta.get('retired'): print(i, 'retired:', meta['retired'][:80]); results.pop(i, None); continue
         props = extra[0] if extra else [meta['property']] + meta.get('also_check', [])
         r = sh(f'git -C /repo apply {d}/patch.diff')
         if r.returncode != 0:
